@@ -63,8 +63,10 @@ def gen_memo_case(rng):
             ops.append(["shape", k])
         elif r < 0.45:
             ops.append(["size", k])
-        elif r < 0.55:
+        elif r < 0.52:
             ops.append(["points", k])
+        elif r < 0.58:
+            ops.append(["ucast", k])   # to_unstructured(): the cast carries the grid's *current* data location
         elif r < 0.8:
             ops.append(["set", k, rng.choice(["cells", "points"])])
         elif r < 0.93 or kinds[k] != "uniform":
@@ -216,6 +218,9 @@ def apply_op(pool, op, spec):
         return {"size": int(x.data_size)}
     if op[0] == "points":
         return {"npoints": len(x.data_points)}
+    if op[0] == "ucast":
+        u = x.to_unstructured()
+        return {"npoints": len(u.data_points)} if u.data_location == x.data_location else {"npoints": -1, "cast_location": str(u.data_location)}
     if op[0] == "set":
         try:
             x.data_location = gu.LOCS[op[2]]
@@ -246,7 +251,14 @@ def oracle_memo(case):
     pool = [gu.build_grid(spec)]
     fresh = {}
     for n, op in enumerate(case["ops"]):
-        apply_op(pool, op, spec)
+        ob = apply_op(pool, op, spec)
+        if op[0] == "ucast":
+            y = pool[op[1]]
+            f = gu.build_grid(spec, loc=gu.LOC_NAMES[y.data_location])
+            if ob != {"npoints": len(f.data_points)}:
+                return ("casting to an unstructured grid preserves the data location and the data points of the grid as it is now",
+                        {"after_op": n, "object": op[1], "location": gu.LOC_NAMES[y.data_location], "cast": ob,
+                         "fresh_grid_data_points": len(f.data_points)})
         for k, y in enumerate(pool):
             loc = gu.LOC_NAMES[y.data_location]
             if loc not in fresh:
@@ -277,7 +289,7 @@ def model_request(case):
     if case["type"] == "config":
         return {"op": "c14", "grid": gu.model_grid(case["grid"])}
     if case["type"] == "memo":
-        ops = [["copy", op[1]] if op[0] == "deepcopy" else op for op in case["ops"]]
+        ops = [["copy", op[1]] if op[0] == "deepcopy" else ["points", op[1]] if op[0] == "ucast" else op for op in case["ops"]]
         return {"op": "c14memo", "grid": gu.model_grid(case["grid"]), "valid": gu.valid_locs(case["grid"]),
                 "ops": ops}
     return {"op": "index", "shape": case["shape"]}
